@@ -83,6 +83,7 @@ func (r *repoCtx) tagLoopRules(fn string, ir *FuncIR, body Block, label string, 
 		}
 	}
 	zeroFail, collFail, insert := false, false, false
+	var insertPos token.Pos
 	var mapName string
 	var lookupOK string
 	for _, n := range blk {
@@ -102,10 +103,12 @@ func (r *repoCtx) tagLoopRules(fn string, ir *FuncIR, body Block, label string, 
 			}
 			if len(n.LHS) == 1 && mapName != "" && n.LHS[0] == mapName+"["+tagVar+"]" && n.Tok == token.ASSIGN {
 				insert = collFail // insertion after the collision test
+				insertPos = n.Pos
 			}
 		case *CallN:
 			if mapName != "" && containsStr(n.Results, mapName+"["+tagVar+"]") {
 				insert = collFail
+				insertPos = n.Pos
 			}
 		}
 	}
@@ -114,6 +117,20 @@ func (r *repoCtx) tagLoopRules(fn string, ir *FuncIR, body Block, label string, 
 	} else {
 		c.Ob("tag-check/zero-means-absent", construct, underNonZero, r.pos(tagPos), "TL2 magic "+src+": 0 means absent (explicit 0 is rejected by the TL2 parser)")
 	}
+	// no element of the loop is skipped before its tag was checked and recorded
+	skips := 0
+	skipAt := token.NoPos
+	walkBlock(body, nil, func(n Node, _ []Guard) {
+		if b, ok := n.(*BranchN); ok && (b.Tok == token.CONTINUE || b.Tok == token.BREAK) && (insertPos == token.NoPos || b.Pos < insertPos) {
+			skips++
+			skipAt = b.Pos
+		}
+	})
+	at := r.pos(tagPos)
+	if skips > 0 {
+		at = r.pos(skipAt)
+	}
+	c.Ob("tag-check/no-element-skipped", construct, skips == 0 && insert, at, fmt.Sprintf("%d continue/break statements come before the point where the tag is recorded: every element of the loop has its tag tested for zero/collision and recorded", skips))
 	c.Ob("tag-check/collision-rejected", construct, collFail, r.pos(tagPos), "lookup hit in the tag table returns an error")
 	c.Ob("tag-check/tag-inserted", construct, insert, r.pos(tagPos), "the tag is inserted under the same key after the collision test, before the next iteration")
 }
